@@ -345,6 +345,10 @@ func (r *runner) start() {
 	r.imageProbes()
 	res := r.st.Start(bootTimeout)
 	r.logf("start -> %s", res)
+	if res == "loaded" && r.c.Oracles.Retention {
+		// let the first maintenance passes rotate an over-full replayed fraction before new bulks arrive
+		r.s.SleepSim(time.Duration(3*r.c.Knobs.MaintenanceDelayMs) * time.Millisecond)
+	}
 	if res != "loaded" {
 		note := r.st.Node.Note()
 		if res == "timeout" {
